@@ -4,12 +4,13 @@ import importlib, os, shutil, sys
 sys.path.insert(0, os.path.dirname(os.path.abspath(__file__)))
 import framework as F
 from extract import RuleLog
-mod = importlib.import_module(sys.argv[1])
+modname, _, fn = sys.argv[1].partition(':')
+mod = importlib.import_module(modname)
 want = sys.argv[2].split(',')
 work = os.path.join(os.path.dirname(os.path.dirname(os.path.abspath(__file__))), '.work', 'dev-' + sys.argv[2].replace(',', '+')[:40])
 shutil.rmtree(work, ignore_errors=True)
 os.makedirs(work)
-for g in mod.groups():
+for g in getattr(mod, fn or 'groups')():
     if g.name in want:
         r = F.run_group(g, work, '--spec' in sys.argv, RuleLog)
         print(f'[{r["status"]}] {r["group"]} {r["seconds"]:.1f}s {len(r["obligations"])} obligations {r["reason"][:1500]}')
